@@ -208,3 +208,39 @@ def safe_impl(fn):
         except Exception as e:  # noqa: BLE001
             return "observe-failed:%s" % type(e).__name__
     return wrapped
+
+
+# ------------------------------------------------------------------------------------------------
+# LARGE numbers: the quantifiers say "every columns >= 2", "every column range", "every offset": identity-vs-equality slips
+# (CPython caches the ints -5..256), 8/16-bit limits and the like only show beyond 256 / 65536.
+# ------------------------------------------------------------------------------------------------
+BIG = (255, 256, 257, 258, 300, 1000)
+HUGE = 65537
+
+
+def long_text(kind, width):
+    """a text of exactly `width` columns (kind 'narrow' / 'mixed'), or the nearest width below for 'wide'"""
+    if kind == "narrow":
+        return ("ab" * (width // 2 + 1))[:width]
+    if kind == "wide":
+        return WIDE * (width // 2)
+    if kind == "comb":
+        return ("a" + COMB) * width
+    unit = "a" + WIDE + COMB + "b"          # 4 columns
+    return unit * (width // 4) + "a" * (width % 4)
+
+
+def limit_memory(gib=8):
+    """A runaway implementation (a slip that makes a list double itself on long inputs) must end as a MemoryError INSIDE
+    the call - which the oracle reports as a violation with a failing input - not as the OS killing the whole check.
+    Caps the address space of this process and its children (the Lean driver needs a few hundred MB)."""
+    import resource
+    try:
+        soft, hard = resource.getrlimit(resource.RLIMIT_AS)
+        want = gib << 30
+        if hard != resource.RLIM_INFINITY:
+            want = min(want, hard)
+        if soft == resource.RLIM_INFINITY or soft > want:
+            resource.setrlimit(resource.RLIMIT_AS, (want, hard))
+    except (ValueError, OSError):
+        pass
